@@ -71,6 +71,13 @@ def zclass(xb, f):
     return "normal"
 
 
+
+def fsum(words):
+    """exact sum of the words; None (equal to no value) when a word is not finite"""
+    if any(not np.isfinite(w) for w in words):
+        return None
+    return sum((flt.float2frac(w) for w in words), Fraction(0))
+
 def check_float(fb, xb):
     """All single-float conversion claims for one bit pattern (finite, inf or nan)."""
     from functional_algorithms import utils
@@ -154,7 +161,7 @@ def check_float(fb, xb):
                 out.append(("mpf/number2mpf/" + zc, "number2mpf(%r)=%r" % (x, m2)))
             # 4. expansion / multiword of a single float
             ex = utils.mpf2expansion(dtype, m)
-            if sum((flt.float2frac(e) for e in ex), Fraction(0)) != exact or any(type(e) is not dtype for e in ex):
+            if fsum(ex) != exact or any(type(e) is not dtype for e in ex):
                 out.append(("expansion/value/" + zc, "mpf2expansion(%r)=%r" % (x, ex)))
             else:
                 back = utils.expansion2mpf(c, ex)
@@ -163,7 +170,7 @@ def check_float(fb, xb):
                     out.append(("expansion/roundtrip/" + zc, "expansion2mpf(mpf2expansion(%r)) -> %r" % (x, y)))
             if zc not in ("negzero", "poszero"):
                 mw = utils.mpf2multiword(dtype, m)
-                if sum((flt.float2frac(e) for e in mw), Fraction(0)) != exact:
+                if fsum(mw) != exact:
                     out.append(("multiword/value/" + zc, "mpf2multiword(%r)=%r" % (x, mw)))
                 elif mw:
                     back = utils.multiword2mpf(c, mw)
@@ -189,7 +196,7 @@ def check_narrowing(src_bits, xb, dst_bits):
         ex = utils.number2expansion(fd.ftype, x)
     if any(type(e) is not fd.ftype or not np.isfinite(e) for e in ex):
         return [("narrow/type-or-nonfinite", "number2expansion(%s, %r)=%r" % (fd.name, x, ex))]
-    tot = sum((flt.float2frac(e) for e in ex), Fraction(0))
+    tot = fsum(ex)
     if tot != exact:
         return [("narrow/value", "number2expansion(%s, %r)=%r sums to %r" % (fd.name, x, ex, float(tot)))]
     return []
@@ -220,7 +227,7 @@ def _check_wide(c, f, dtype, sign, man, exp):
         if any(type(e) is not dtype or not np.isfinite(e) for e in ex):
             out.append(("wide/expansion/nonfinite", "mpf2expansion(%s, %r)=%r" % (f.name, m, ex)))
         else:
-            tot = sum((flt.float2frac(e) for e in ex), Fraction(0))
+            tot = fsum(ex)
             if tot != exact:
                 out.append(("wide/expansion/value", "mpf2expansion(%s, man=%d exp=%d) sums to a different value" % (f.name, man, exp)))
             else:
@@ -235,11 +242,11 @@ def _check_wide(c, f, dtype, sign, man, exp):
         bc = man.bit_length()
         if mw and all(np.isfinite(e) for e in mw):
             # documented for every x: x == sum(result) + O(smallest subnormal); here with a generous constant
-            tot = sum((flt.float2frac(e) for e in mw), Fraction(0))
+            tot = fsum(mw)
             if abs(tot - exact) > 4 * f.smallest_subnormal:
                 out.append(("wide/multiword/far-from-value", "mpf2multiword(%s, man=%d exp=%d)=%r is %.3g away from x (documented: O(smallest subnormal))" % (f.name, man, exp, mw, float(abs(tot - exact)))))
         if mw and bc <= f.p * len(mw):  # documented exactness condition
-            tot = sum((flt.float2frac(e) for e in mw), Fraction(0))
+            tot = fsum(mw)
             if tot != exact:
                 out.append(("wide/multiword/value", "mpf2multiword(%s, man=%d exp=%d)=%r not exact although bc<=p*len" % (f.name, man, exp, mw)))
             else:
